@@ -3,7 +3,7 @@
    bad reply, and a run ends at its first error. *)
 From Coq Require Import ZArith List Bool Arith.
 Import ListNotations.
-From MV Require Import Time.Spec Sched.Timing Sched.Inv Sched.Init Sched.Wle Sched.Main Sched.Guards Sched.Final.
+From MV Require Import Time.Spec Sched.Timing Sched.Inv Sched.Init Sched.Wle Sched.Main Sched.Guards Sched.Final Sched.GenView Gen.SchedulerFns Sched.SchedTie.
 Open Scope Z_scope.
 
 Theorem C13_next_step_not_later : forall st s i t v, pc (s i) = InStep -> cur (s i) = Some t -> v <= thd t ->
@@ -29,3 +29,32 @@ Print Assumptions C13_wellformed_next_step_accepted.
 Theorem C13_error_is_final : forall st s e r evs, apply st s e = Err r -> run st s (e :: evs) = Err r.
 Proof. exact error_is_final. Qed.
 Print Assumptions C13_error_is_final.
+
+(* tie to the source: the validation of a step() reply in scheduler.step (the nesting of its tests and every comparison are
+   translated from mosaik/scheduler.py on every run, Gen/SchedulerFns.v step_reply) is what the model does with the reply:
+   a reply that is refused is an error naming the simulator, an accepted one schedules the self-step iff it lies before until *)
+Theorem C13_generated_reply_validation_is_the_model : forall st s i nxt t, pc (s i) = InStep -> cur (s i) = Some t ->
+  apply st s (EvStep i nxt) =
+  (let x := s i in
+   let s1 := upd s i (mkSim InStep (prog x) (nexts x) (cur x) t (newer x)) in
+   match step_reply (reply_of nxt) (thd t) (until st) (timebased st i) with
+   | StepOk sched =>
+       let s2 := match sched with Some v => schedule s1 i (world_time st i v) | None => s1 end in
+       if outreq st i then let y := s2 i in Ok (upd s2 i (mkSim InData (prog y) (nexts y) (cur y) (last y) (newer y)))
+       else finish_step st s2 i t []
+   | _ => Err (EReply i)
+   end).
+Proof. exact tie_step_reply. Qed.
+Print Assumptions C13_generated_reply_validation_is_the_model.
+
+(* ... and the output time: get_outputs' test "output time >= time of the step" and the tiered output time (the current tiered
+   step when the output carries the step's own time, else the announced time with zero sub-steps) *)
+Theorem C13_generated_output_time_rule_is_the_model : forall st s i ot ports c,
+  pc (s i) = InData -> cur (s i) = Some c -> length c = depth st i ->
+  apply st s (EvData i ot ports) =
+  match output_time_rule ot c (thd (last (s i))) with
+  | None => Err (EOutTime i)
+  | Some ott => finish_step st s i ott ports
+  end.
+Proof. exact tie_output_time. Qed.
+Print Assumptions C13_generated_output_time_rule_is_the_model.
